@@ -156,6 +156,19 @@ def check_object(ctx, obj, case, label, brk, pts, H_ref, S_ref, T_ref, table):
         if not close(sv, v, 1e-12 * max(1.0, abs(sv))):
             f('scalar-vs-array-CpoR', 'CpoR(%r) scalar %r, array %r' % (T, sv, v))
             break
+    # the type of a scalar temperature does not matter either: int, numpy integer and numpy float ask the same question
+    for T in [t for t in pts if float(t).is_integer()][:3]:
+        ref = (obj.get_CpoR(float(T)), obj.get_HoRT(float(T)), obj.get_SoR(float(T)))
+        for conv in (int, np.int64, np.float64):
+            try:
+                alt = (obj.get_CpoR(conv(T)), obj.get_HoRT(conv(T)), obj.get_SoR(conv(T)))
+            except Exception as e:
+                f('scalar-temperature-type:%s:raises-%s' % (conv.__name__, type(e).__name__), 'T=%s(%r): %s: %s' % (conv.__name__, T, type(e).__name__, e))
+                break
+            ctx.event('scalar-temperature-type:%s' % conv.__name__)
+            if not all(close(a, b, 1e-12 * max(1.0, abs(a))) for a, b in zip(ref, alt)):
+                f('scalar-temperature-type:%s' % conv.__name__, '(CpoR, HoRT, SoR) at %r as float %r, as %s %r' % (T, ref, conv.__name__, alt))
+                break
     # an integer-typed array of temperatures is the same request as the float one (300 K is 300.0 K)
     ints = sorted({int(T) for T in pts if float(T).is_integer()} | {int(math.ceil(pts[0])), int(math.floor(pts[-1]))})
     ints = [t for t in ints if pts[0] <= t <= pts[-1]]
